@@ -159,7 +159,11 @@ impl<F: Fam> C5Sys<F> {
         let streams = (0..n).map(|_| Some(F::open(&chan))).collect();
         C5Sys { held: Vec::new(), streams, chan, table: Arc::new(Mutex::new(Table::default())), fifo: vec![VecDeque::new(); n], finished: Vec::new(), sends: 0, listeners: n, reserve_mode, reserved: Vec::new() }
     }
-    fn next_id(&self) -> u32 { 1 + self.sends % PERIOD }
+    /// the next id in the cycle that nobody has a claim on any more (an id still buffered, held or reserved is never given to a second payload)
+    fn next_id(&self) -> u32 {
+        let live = self.live();
+        (0..PERIOD).map(|k| 1 + (self.sends + k) % PERIOD).find(|id| !live.contains(id)).expect("more live payloads than ids in the cycle")
+    }
     /// ids somebody still has a claim on: buffered for a listener or held by the consumer
     fn live(&self) -> Vec<u32> {
         let mut v: Vec<u32> = self.fifo.iter().flat_map(|q| q.iter().copied()).collect();
@@ -245,8 +249,9 @@ impl<F: Fam> Sys for C5Sys<F> {
                 matches!(self.chan.send_with(move |slot| unsafe { std::ptr::write(slot, Tr::new(id, &table)) }), keen_retry::RetryResult::Ok { .. })
             };
             if accepted != !full { return Err((if accepted { "accepted-beyond-capacity" } else { "rejected-with-room" }.into(), format!("{op} of payload {id} was {} with {} of {} slots taken", if accepted { "accepted" } else { "rejected" }, self.occupancy(), F::B))) }
-            self.sends += 1;
+            // a rejected send leaves no trace in the model: the id is taken again by the next attempt
             if accepted {
+                self.sends += 1;
                 let mut any = false;
                 for l in 0..self.listeners { if self.streams[l].is_some() { self.fifo[l].push_back(id); any = true } }
                 if !any { self.finished.push(id) }
